@@ -962,3 +962,89 @@ def _group_src(m, group):
                 return pat[start:i + 1]
         i += 1
     raise hlib.HarnessError("group %d not found in %r" % (group, pat))
+
+
+REPLAY_PREFIX = REPLAY_HEAD + '''
+DEEP = %r
+RO, IMM = uri.ALLEGED_READONLY_PREFIX, uri.ALLEGED_IMMUTABLE_PREFIX
+r = uri.from_string(W, deep_immutable=DEEP)
+print("from_string ->", type(r).__name__)
+if isinstance(r, uri.UnknownURI):
+    sys.exit(0)
+t = r.to_string()
+ok_forms = [t, RO + t, IMM + t]
+if any(W.startswith(k.encode()) or W.startswith(RO + k.encode()) or W.startswith(IMM + k.encode()) for k in MDMF):
+    ok = any(W == f or W.startswith(f + b":") for f in ok_forms)
+else:
+    ok = W in ok_forms
+if not ok:
+    print("VIOLATION: accepted as", t, "although the input is not that capability with at most one alleged prefix"); sys.exit(1)
+if (W.startswith(RO) or W.startswith(IMM) or DEEP) and not r.is_readonly():
+    print("VIOLATION: alleged read-only input gives a writeable capability"); sys.exit(1)
+if (W.startswith(IMM) or DEEP) and r.is_mutable():
+    print("VIOLATION: alleged immutable input gives a mutable capability"); sys.exit(1)
+back = uri.from_string(t)
+if type(back) is not type(r) or back.to_string() != t:
+    print("VIOLATION: to_string() of the result does not re-parse to the same capability"); sys.exit(1)
+sys.exit(0)
+'''
+
+
+@guarded
+def ob_prefix_single(ctx):
+    """every string from_string accepts as a known kind is that capability's own string with AT MOST ONE alleged prefix, and the
+    restriction the prefix alleges is in force"""
+    files, dirs, models, chain, info = _setup(ctx, "full")
+    q = Q(ctx)
+    res = {"status": "discharged", "nonvacuous": True, "info": info}
+    table = cm.prefix_table()
+    RO, IMM = uri.ALLEGED_READONLY_PREFIX, uri.ALLEGED_IMMUTABLE_PREFIX
+    info["prefix_table"] = dict(("%s deep=%s" % (b"".join(T).decode() or "-", deep), v) for (T, deep), v in sorted(table.items()))
+    u = z3.String("u")
+    per = {}
+    res["info"]["per_class"] = per
+
+    def violated(w, deep, what):
+        res.update(status="violated", witness_class="alleged-prefix", model=repr(w), call="uri.from_string(%r, deep_immutable=%s)" % (w, deep),
+                   replay_src=REPLAY_PREFIX % (cm.MDMF_KINDS, w, deep))
+        per["violation"] = what
+        return q.finish(res)
+    allowed_pre = _rx.alt(_rx.eps(), _rx.lit_re(py2z(RO)), _rx.lit_re(py2z(IMM)))
+    for deep in (False, True):
+        for e in chain:
+            if e.cls is None:
+                continue
+            m = models[e.cls]
+            L = m.parse_lang()
+            # language of inputs the (learned prefix table + extracted chain) model turns into class e.cls
+            outs = []
+            for (T, dp), (k, cw, cmu) in table.items():
+                if dp != deep or k is None or k != len(T):
+                    continue        # leftover tokens in front of the body: no chain entry matches, UnknownURI
+                fl = {"can_be_writeable": cw, "can_be_mutable": cmu}
+                if e.guard is not None and not fl[e.guard]:
+                    continue
+                outs.append((T, _rx.cat(_rx.lit_re(py2z(b"".join(T))) if T else None, L)))
+                # the restriction alleged by the stripped tokens must be in force
+                lost = ((T or deep) and cw) or ((IMM in T or deep) and cmu)
+                if lost:
+                    r, mod = q.check([z3.InRe(u, outs[-1][1])], "%s:%s:lost-restriction" % (e.cls, b"".join(T)))
+                    if r == "sat":
+                        # a witness matters only if the class actually needs the lost flag
+                        need_w = py2z(m.base) in ("URI:SSK:", "URI:MDMF:", "URI:DIR2:", "URI:DIR2-MDMF:")
+                        need_m = need_w or py2z(m.base) in ("URI:SSK-RO:", "URI:MDMF-RO:", "URI:DIR2-RO:", "URI:DIR2-MDMF-RO:")
+                        if (need_w and (T or deep) and cw) or (need_m and (IMM in T or deep) and cmu):
+                            return violated(z2py(mod[u], True), deep, "restriction alleged by %r%s is not in force" % (b"".join(T), " / deep_immutable" if deep else ""))
+            if not outs:
+                continue
+            A = _rx.alt(*[o[1] for o in outs])
+            r0, _ = q.check([z3.InRe(u, A)], "%s:nonvacuity" % e.cls)
+            if r0 != "sat":
+                res["nonvacuous"] = False
+            r, mod = q.check([z3.InRe(u, A), z3.Not(z3.InRe(u, _rx.cat(allowed_pre, L)))], "%s:deep=%s:single-prefix" % (e.cls, deep))
+            if r == "sat":
+                return violated(z2py(mod[u], True), deep, "more than one alleged prefix is stripped")
+            if r != "unsat":
+                q.unknown.append("%s:single-prefix" % e.cls)
+            per["%s deep=%s" % (e.cls, deep)] = "accepted inputs = (none | ro. | imm.) + grammar: %s" % r
+    return q.finish(res)
